@@ -597,8 +597,9 @@ impl PtraceDumper {
         }
 
         // Zero memory that is below the current stack pointer.
-        let offset =
-            (sp_offset + std::mem::size_of::<usize>() - 1) & !(std::mem::size_of::<usize>() - 1);
+        let offset = ((sp_offset + std::mem::size_of::<usize>() - 1)
+            & !(std::mem::size_of::<usize>() - 1))
+            .min(stack_copy.len());
         for x in &mut stack_copy[0..offset] {
             *x = 0;
         }
